@@ -13,7 +13,7 @@ use crate::generics;
 use crate::input::FnInputMode;
 use crate::input::{InputFn, InputMod, ModItem};
 use crate::signature;
-use crate::sub_attributes::analyze_sub_attributes;
+use crate::sub_attributes::{analyze_sub_attributes, is_async_trait};
 use crate::trait_codegen::Supertraits;
 use crate::trait_codegen::TraitCodegen;
 use input_attr::*;
@@ -80,10 +80,16 @@ pub fn entrait_for_single_fn(attr: &EntraitFnAttr, input_fn: InputFn) -> syn::Re
         raw,
     } = input_fn;
 
+    // `async_trait` is for what gets generated, it cannot be applied to a function
+    let fn_attrs = fn_attrs
+        .iter()
+        .filter(|attr| !is_async_trait(attr));
+
     // the function is emitted as it came in, not re-printed from its parsed form
-    let original = raw.unwrap_or_else(|| quote! { #(#fn_attrs)* #fn_vis #fn_sig #fn_body });
+    let original = raw.unwrap_or_else(|| quote! { #fn_vis #fn_sig #fn_body });
 
     let out = quote! {
+        #(#fn_attrs)*
         #original
         #trait_def
         #impl_block
@@ -161,6 +167,11 @@ pub fn entrait_for_mod(attr: &EntraitFnAttr, input_mod: InputMod) -> syn::Result
 
     let trait_vis = &attr.trait_visibility;
     let trait_ident = &attr.trait_ident;
+
+    // `async_trait` is for what gets generated, it cannot be applied to a module
+    let attrs = attrs
+        .iter()
+        .filter(|attr| !is_async_trait(attr));
 
     Ok(quote! {
         #(#attrs)*
